@@ -1,6 +1,11 @@
 package core
 
-import "strings"
+import (
+	"strings"
+
+	"github.com/jsightapi/jsight-api-core/catalog"
+	"github.com/jsightapi/jsight-api-core/catalog/ser/openapi"
+)
 
 // HRefMatrix (C01, C04, C05): every place where a schema can name a user type x every
 // notation the type can have. Place and notation are symbolic choices; whatever the
@@ -65,8 +70,143 @@ func HRefMatrix() {
 		vAssert(!strings.Contains(l, "ILL-TYPED"), "c04-content-node-typed-inconsistently")
 	}
 	vCheckClosure(c)
+	if vParam("emitOnly", 0) == 1 {
+		vCheckJSON(c)
+	}
+	if vParam("export", 0) == 1 {
+		vExportNoPanic(c)
+		vCheckOpenAPIJSON(c)
+	}
 	vReach("accepted")
 	vObserve("accepted", ni, pi)
 }
 
 func init() { vRegister("HRefMatrix", HRefMatrix) }
+
+// vExportNoPanic runs the OpenAPI export of an accepted catalog (everything ToOpenAPIJson does
+// before encoding/json): an error value or a document, never a panic (C17).
+func vExportNoPanic(c *JApiCore) {
+	oa, err := openapi.NewOpenAPI(c.catalog)
+	vAssert(err != nil || oa != nil, "c17-neither-error-nor-document")
+	if err == nil {
+		vAssert(oa.OpenAPI == "3.0.3" && oa.Info != nil && oa.Paths != nil, "c17-document-without-version-info-paths")
+		// every HTTP interaction is paths[path][method]; every {parameter} of its path is a required path parameter
+		_ = c.catalog.Interactions.Each(func(id catalog.InteractionID, v catalog.Interaction) error {
+			hi, ok := v.(*catalog.HTTPInteraction)
+			if !ok {
+				return nil
+			}
+			path := string(hi.PathVal)
+			pi := oa.Paths[path]
+			vAssert(pi != nil, "c17-interaction-path-missing-in-paths")
+			var op *openapi.Operation
+			switch hi.HttpMethod {
+			case catalog.GET:
+				op = pi.Get
+			case catalog.POST:
+				op = pi.Post
+			case catalog.PUT:
+				op = pi.Put
+			case catalog.PATCH:
+				op = pi.Patch
+			case catalog.DELETE:
+				op = pi.Delete
+			}
+			vAssert(op != nil, "c17-interaction-method-missing-in-path-item")
+			for _, name := range vPathParams(path) {
+				found := false
+				for _, p := range pi.Parameters {
+					if p.Name == name && p.In == openapi.ParameterLocationPath && p.Required {
+						found = true
+					}
+				}
+				vAssert(found, "c17-path-parameter-not-declared")
+			}
+			return nil
+		})
+	}
+}
+
+// HEmitCases (C04, C17): bodies and rules that are checked late. A symbolic choice among
+// regex bodies (valid and invalid patterns, in a response, a request, a Body directive, a
+// user type), Path bodies whose rules disagree with their examples or name undefined
+// types or enums, empty enums and types in empty notation: whatever the verdict of the
+// build, an ACCEPTED document serialises (every emitter step succeeds, nodes well typed)
+// and its OpenAPI export returns an error or a document without panicking.
+func HEmitCases() {
+	patterns := []string{"ab+", "[", "a(", "+", "*a", "a{2", "\\", "(?P<x>a)", "a|b", "", "[a-z]{2,}", "\\x01"}
+	nDocs := 13
+	di := vInt("doc", 0, nDocs-1)
+	pat, pr := "", ""
+	if di <= 4 {
+		pat = patterns[vInt("pattern", 0, len(patterns)-1)]
+	}
+	pathRules := []string{
+		"\"id\": \"abc\" // {type: \"integer\"}",
+		"\"id\": 1 // {type: \"@undef\"}",
+		"\"id\": 1 // {min: 5}",
+		"\"id\": 1 // {enum: @undef}",
+		"\"id\": 1 // {enum: @e}",
+		"\"id\": \"x\" // {regex: \"[\"}",
+		"\"id\": 1 // {or: [\"@undef\", \"integer\"]}",
+		"\"id\": 12 // {const: true}",
+	}
+	if di == 5 {
+		pr = pathRules[vInt("pathRule", 0, len(pathRules)-1)]
+	}
+	docs := []string{
+		"GET /a\n  200 regex\n  /" + pat + "/\n",
+		"POST /a\n  Request regex\n  /" + pat + "/\n  200 any\n",
+		"GET /a\n  200\n    Body regex\n    /" + pat + "/\n",
+		"POST /a\n  Request\n    Body regex\n    /" + pat + "/\n  200 any\n",
+		"TYPE @r regex\n/" + pat + "/\nGET /a/{id}\n  Path\n  {\"id\": @r}\n  200 @r\n",
+		"ENUM @e\n[1, 2]\nURL /a/{id}\n  Path\n  {\n    " + pr + "\n  }\n  GET\n    200 any\n",
+		"ENUM @e\n[]\nGET /a\n  200\n  {\"k\": 1 // {enum: @e}\n  }\n",
+		"TYPE @e empty\nTYPE @y any\nGET /a\n  200 any\nPOST /a\n  Request any\n  204 empty\n",
+		"GET /a\n  200 empty\n  200 any\n",
+		"POST /a\n  Request\n    Headers\n    {\"h\": 2}\n  200 any\n", // request headers without a body
+		"TYPE @cat\n{ // a cat\n  \"n\": 1\n}\nGET /a\n  200 @cat // first\n  200\n    Body regex\n    /y+/\n  200 any\n  404 any\n", // same-code responses of three notations
+		"TAG @unused // nobody names it\nSERVER @s1\n  BaseUrl \"https://a\"\nSERVER @s2\n  BaseUrl \"https://b\"\nPATCH /e/{pid}/f/{fid}\n  Request any\n  200 any\n", // an unused TAG, two servers, PATCH with its own parameters
+		"GET /a\n  304\n    Headers\n    {\"ETag\": \"x\"}\n", // response headers without a body
+	}
+	vAssert(len(docs) == nDocs, "bad-fixture-count")
+	c, je := vBuildText("JSIGHT 0.3\n" + docs[di])
+	if di <= 4 {
+		// the verdict on a regex body / type is that of the pattern
+		switch pat {
+		case "ab+", "(?P<x>a)", "a|b", "[a-z]{2,}":
+			vAssert(je == nil, "c04-valid-regex-rejected")
+		case "[", "a(", "+", "*a":
+			vAssert(je != nil, "c04-invalid-regex-accepted")
+		}
+	}
+	if di == 9 {
+		vAssert(je != nil, "c04-headers-without-a-body-accepted")
+	}
+	if di == 10 || di == 11 {
+		vAssert(je == nil, "c04-valid-fixture-rejected")
+	}
+	if di == 12 {
+		vAssert(je != nil, "c04-headers-without-a-body-accepted")
+	}
+	if je != nil {
+		vAssert(je.File != nil && int(je.Index) <= je.File.Content().Len(), "c01-error-location-outside-file")
+		vReach("rejected")
+		vObserve("rejected", di)
+		return
+	}
+	for _, l := range vEmit(c) {
+		vAssert(!strings.Contains(l, "error:"), "c04-serialisation-step-fails-for-an-accepted-document")
+		vAssert(!strings.Contains(l, "ILL-TYPED"), "c04-content-node-typed-inconsistently")
+	}
+	vCheckJSON(c)
+	vCheckClosure(c)
+	if vParam("export", 0) == 1 {
+		vExportNoPanic(c)
+		vCheckOpenAPIJSON(c)
+	}
+	vReach("accepted")
+	vObserve("accepted", di)
+}
+
+func init() { vRegister("HEmitCases", HEmitCases) }
